@@ -66,8 +66,7 @@ fn oracle(d: &IotaDID) -> Option<String> {
     _ => return Some("iota-try-from-core:".into()),
   }
   // every other view of the value is the same string, and the library's own validity tests accept it
-  let views: [(&str, String); 8] = [
-    ("Debug", format!("{:?}", d)),
+  let views: [(&str, String); 7] = [
     ("into_string", d.clone().into_string()),
     ("Into<String>", String::from(d.clone())),
     ("Into<CoreDID>", CoreDID::from(d.clone()).to_string()),
@@ -240,8 +239,17 @@ pub fn run(args: &[&str]) -> String {
         if !same || !json {
           return "x\t#FAIL:network-name-rule:a view of the accepted name differs from it".into();
         }
-      } else if NetworkName::from_json(&serde_json::to_string(&n).unwrap_or_default()).is_ok() {
-        return "x\t#FAIL:network-name-rule:deserialisation accepts a refused name".into();
+      } else if let Ok(bad) = NetworkName::from_json(&serde_json::to_string(&n).unwrap_or_default()) {
+        // what such a name does to a DID built from it
+        let built = std::panic::catch_unwind(|| IotaDID::new(&[7u8; 32], &bad).network_str().to_string());
+        return format!(
+          "x\t#FAIL:network-name-rule:deserialisation accepts the refused name {:?}; IotaDID::new with it {}",
+          n,
+          match built {
+            Ok(net) => format!("yields network {:?}", net),
+            Err(_) => "panics".to_string(),
+          }
+        );
       }
       let want = !n.is_empty() && n.len() <= 6 && n.chars().all(|c| c.is_ascii_lowercase() || c.is_ascii_digit());
       with(if ok { "ok" } else { "err" }.into(), if ok != want { Some(format!("network-name-rule:{:?}", n)) } else { None })
